@@ -166,7 +166,9 @@ StepType(st, d) ==
 
 StepField(st, d) ==
   LET fr == Top(st)
-      s1 == Add(st, {<<"field", fr.app, fr.type, d.name, TypeStr(d.sh)>>}
+      \* a field declared again states its type in full (tags accumulate, the type is the later one)
+      s0 == [st EXCEPT !.model = {f \in @ : ~(f[1] = "field" /\ f[2] = fr.app /\ f[3] = fr.type /\ f[4] = d.name)}]
+      s1 == Add(s0, {<<"field", fr.app, fr.type, d.name, TypeStr(d.sh)>>}
                     \cup AttrFacts("field", <<fr.app, fr.type, d.name>>, d)
                     \cup (IF d.pk THEN {<<"pk", fr.app, fr.type, d.name>>,
                                         <<"field.tag", fr.app, fr.type, d.name, "pk">>} ELSE {}))
@@ -199,7 +201,9 @@ StepEp(st, d) ==
 
 StepEvent(st, d) ==
   LET app == Top(st).app
-      s1 == Add(st, {<<"event", app, d.name>>})
+      \* an event carries the attributes written at its own declaration, whether or not an earlier subscription has
+      \* already created its endpoint
+      s1 == Add(st, {<<"event", app, d.name>>} \cup AttrFacts("ep", <<app, d.name>>, d))
   IN Push(Loc(s1, <<"ep", app, d.name>>, d), [k |-> "ep", app |-> app, ep |-> d.name, own |-> 0])
 
 \* a subscription is an endpoint "Src -> Ev" of the subscriber and a call to it,
@@ -209,7 +213,8 @@ StepSub(st, d) ==
       ep == d.src \o " -> " \o d.name
       n == StmtCount(st, d.src, d.name) + 1
       s1 == Add(st, {<<"sub", app, ep, d.src>>, <<"app", d.src>>, <<"event", d.src, d.name>>,
-                     <<"stmt", d.src, d.name, ToString(n), "call", app \o " <- " \o ep>>})
+                     <<"stmt", d.src, d.name, ToString(n), "call", app \o " <- " \o ep>>}
+                    \cup AttrFacts("ep", <<app, ep>>, d))
       s2 == SetStmtCount(s1, d.src, d.name, n)
       \* the injected call is located at the subscription that causes it
       s3 == Loc(Loc(s2, <<"ep", app, ep>>, d), <<"stmt", d.src, d.name, ToString(n)>>, d)
